@@ -141,3 +141,18 @@ Definition ret_ext (t : ty) : option (opcode * kind) :=
 (* moves executed one after the other *)
 Definition seq_moves (ms : list (reg * reg)) (f : rfile) : rfile :=
   fold_left (fun g m => upd g (fst m) (g (snd m))) ms f.
+
+(* ---- 5. where simplify_func puts the extensions of narrow parameters (mir.c, "Add extensions for
+        the func args", MIR_prepend_insn) ------------------------------------------------------------ *)
+
+(* the extension insns [exts] (one per narrow parameter, no labels among them) go in front of the body *)
+Definition prepend_exts (exts body : list insn) : list insn := exts ++ body.
+
+Definition not_a_label (i : insn) : Prop := forall l, is_label i l = false.
+
+(* the alternative "keep a leading label first": the extension goes after the first insn *)
+Definition insert_after_head (e : insn) (body : list insn) : list insn :=
+  match body with
+  | i :: r => i :: e :: r
+  | nil => [e]
+  end.
